@@ -323,6 +323,58 @@ impl<T> LinkedList<T> {
     }
 }
 
+#[cfg(all(futures_intrusive_verif, feature = "alloc"))]
+impl<T> LinkedList<T> {
+    /// Read-only walk from the oldest node (tail) to the newest (head) for the
+    /// verification harness. `is_live` is asked for every node address before
+    /// the node is dereferenced; `visit` is called for every live node.
+    /// Stops at the first inconsistency.
+    pub fn verif_walk(
+        &self,
+        is_live: crate::verif::IsLive<'_>,
+        visit: &mut dyn FnMut(usize, &T),
+    ) -> Result<(), crate::verif::WalkError> {
+        use crate::verif::WalkError;
+        let mut current = self.tail;
+        let mut newer: Option<NonNull<ListNode<T>>> = None;
+        let mut count = 0usize;
+        while let Some(node) = current {
+            let addr = node.as_ptr() as usize;
+            count += 1;
+            if count > crate::verif::MAX_WALK {
+                return Err(WalkError {
+                    what: "list walk does not terminate",
+                    addr,
+                });
+            }
+            if !is_live(addr) {
+                return Err(WalkError {
+                    what: "list contains a node which is not alive",
+                    addr,
+                });
+            }
+            // Safety: the harness vouched for the node being alive
+            let node_ref = unsafe { &*node.as_ptr() };
+            if node_ref.next != newer {
+                return Err(WalkError {
+                    what: "next pointer does not match the walk",
+                    addr,
+                });
+            }
+            visit(addr, &node_ref.data);
+            newer = Some(node);
+            current = node_ref.prev;
+        }
+        if self.head != newer {
+            return Err(WalkError {
+                what: "head does not match the walk",
+                addr: self.head.map_or(0, |h| h.as_ptr() as usize),
+            });
+        }
+        Ok(())
+    }
+}
+
 #[cfg(all(test, feature = "alloc"))] // Tests make use of Vec at the moment
 mod tests {
     use super::*;
